@@ -21,7 +21,8 @@ SeqShapes == {"array", "boxarray", "rcarray", "arrayofbox", "arrayopt", "vecarra
 \* shapes with a fixed number of instrumented elements
 FixedShapes == { <<"option", 1, 1>>, <<"result", 1, 1>>, <<"box", 1, 1>>, <<"rc", 1, 1>>, <<"arc", 1, 1>>,
                  <<"tuple3", 3, 3>>, <<"boxtuple", 2, 2>>, <<"nested", 3, 6>>, <<"struct3", 3, 3>>,
-                 <<"enum3", 3, 3>>, <<"nestedz", 3, 6>>, <<"arcarray3", 3, 3>>, <<"optarcarr", 3, 3>>, <<"enum1", 1, 1>>, <<"boxtransp", 1, 1>>, <<"boxarrtransp3", 3, 3>> }
+                 <<"enum3", 3, 3>>, <<"nestedz", 3, 6>>, <<"boxtupstruct3", 3, 3>>, <<"boxstruct3", 3, 3>>, <<"arrtupstruct", 3, 6>>,
+                 <<"rctupstruct3", 3, 3>>, <<"boxtuple3", 3, 3>>, <<"arrtuple2", 3, 6>>, <<"garray3", 3, 3>>, <<"boxgarray3", 3, 3>>, <<"arcarray3", 3, 3>>, <<"optarcarr", 3, 3>>, <<"enum1", 1, 1>>, <<"boxtransp", 1, 1>>, <<"boxarrtransp3", 3, 3>> }
 Total(shape, n) == IF shape \in {"vecarray2", "vecvec", "vecarrayz2"} THEN 2 * n ELSE n
 
 Vecs ==
